@@ -44,7 +44,7 @@ def run_case(cs):
     else:
         tree = world.gen_tree(rng, max_files=8, max_dirs=4, min_files=1)
     d = cs.dir()
-    root = os.path.join(d, "R")
+    root = os.path.join(d, world.root_name(rng))
     world.write_tree(root, tree)
     subdirs = [x for x in tree if tree[x] is None]
     nested = rng.sample(subdirs, min(len(subdirs), rng.choice([0, 0, 1, 2])))
